@@ -55,6 +55,12 @@ def run_history(ctx, seed):
     info = {'seed': seed, 'proto': proto, 'id_space': K, 'nodes': nodes, 'keyspace': pw.keyspace, 'never_convict': never, 'v2cfg': v2cfg, 'steps': nsteps,
             'shutdown_at': shutdown_at, 'shutdown_how': shutdown_how if shutdown_at is not None else None}
     steps_log = []
+    stalled_initial_pool = nodes >= 2 and rng.random() < 0.3
+    if stalled_initial_pool:
+        # the pool of the first host is still being built when connect() returns (its connections are stuck in their set-up); whatever makes the session
+        # look at its pools meanwhile (another host going down ...) can start a second build for the same host; both finish when the node answers
+        pw.hold_init_of[0] = pw.addrs[0]
+        info['stalled_initial_pool'] = True
     with env:
         session = pw.start()
         rec = pw.rec
@@ -92,6 +98,7 @@ def run_history(ctx, seed):
                 else:
                     # Cluster.shutdown() joins the executor: a task blocked for ever in a kept-back USE round trip (no timeout in the driver) would hang it
                     pw.hold_handshake[0] = False
+                    pw.hold_init_of[0] = None
                     pw.release_handshakes()
                     cluster.shutdown()
                 return
@@ -168,6 +175,26 @@ def run_history(ctx, seed):
                 world.advance_to(world.now + dt)
 
         forced_shutdown = [None]
+        if stalled_initial_pool:
+            saved_preempt, pw.ch.p_preempt = pw.ch.p_preempt, rng.choice([0.1, 0.3, 0.5])
+            if rng.random() < 0.75:
+                live = pw.live_pool_conns()
+                if live:
+                    c = rng.choice(live)
+                    how = rng.random() < 0.5
+                    steps_log.append(('fail', c.sim_id, 'reset' if how else 'eof'))
+                    net.server_close(c, reset=how)
+                    if rng.random() < 0.5:
+                        u = new_uid()
+                        kinds[u] = 'rows'
+                        plan.set(u, 'rows')
+                        rec.execute_async(session, u, timeout=timeout)
+                    world.settle(advance=False)
+            if rng.random() < 0.8:
+                pw.hold_init_of[0] = None
+                steps_log.append(('release-initial-pool', pw.release_handshakes()))
+                world.settle(advance=False)
+            pw.ch.p_preempt = saved_preempt
         if rng.random() < (0.3 if proto < 3 else 0.12):
             # saturation prelude: fill every connection of a pool exactly to its capacity with requests the node keeps back (the pool may grow meanwhile),
             # then borrowers that have to wait: some give up while the pool is still full, some are woken by a stream that really was freed
@@ -225,7 +252,7 @@ def run_history(ctx, seed):
                             rng.choice(cand).release()
                         steps_log.append(('waiter-threads',))
                         world.settle(advance=False)
-        if proto >= 3 and rng.random() < 0.4:
+        if proto >= 3 and rng.random() < 0.5:
             # overload prelude: enough timed-out streams to cross the orphan threshold while other requests stay pending, then more
             # requests (a burst: several borrows race the replacement) make the pool replace the connection: the old one goes to _trash
             thr = 3 * K // 4
@@ -256,7 +283,29 @@ def run_history(ctx, seed):
                         kinds[u] = 'direct-rows'
                         world.spawn(lambda u=u, p=ps[0]: pw.direct_request(p, u, 'rows'), name='borrower-%d' % u)
                     steps_log.append(('borrower-threads',))
-                if ps and rng.random() < 0.5:
+                if ps and rng.random() < 0.4:
+                    # the overloaded connection fails at the moment its replacement completes: the replacement's set-up is kept back until the pool waits
+                    # for it, then the node lets it finish and resets the old connection in the same breath
+                    pw.hold_handshake[0] = True
+                    u = new_uid()
+                    kinds[u] = 'hold'
+                    plan.set(u, 'hold')
+                    rec.execute_async(session, u, timeout=30.0)
+                    world.settle(advance=False)
+                    old_conns = [c for c in pw.live_pool_conns() if c.orphaned_threshold_reached]
+                    pw.hold_handshake[0] = False
+                    order = rng.random() < 0.5
+                    if order:
+                        pw.release_handshakes()
+                    for c in old_conns[:1]:
+                        how = rng.random() < 0.5
+                        steps_log.append(('fail-while-replacement-completes', c.sim_id, 'reset' if how else 'eof'))
+                        net.server_close(c, reset=how)
+                    if not order:
+                        pw.release_handshakes()
+                    pw.ch.p_preempt = 0.5
+                    world.settle(advance=False)
+                elif ps and rng.random() < 0.5:
                     # the replacement's handshake is kept back until the pool waits for it, then released while this thread keeps borrowing
                     # (non-blocking borrows): borrows overlap every stage of the completion of _replace
                     pw.hold_handshake[0] = True
@@ -288,6 +337,8 @@ def run_history(ctx, seed):
                     # connection fails while its own replacement cannot complete at once, and the pool is shut down in one of the next steps
                     world.settle(advance=False)
                     live = [c for c in pw.live_pool_conns() if not c.orphaned_threshold_reached]
+                    if rng.random() < 0.35:
+                        live = [c for c in pw.live_pool_conns() if c.orphaned_threshold_reached] or live      # the replaced connection waiting in the trash fails
                     if live:
                         c = rng.choice(live)
                         if rng.random() < 0.7:
@@ -306,6 +357,7 @@ def run_history(ctx, seed):
         for i in range(nsteps):
             step(i)
         # ---------------- drain
+        pw.hold_init_of[0] = None
         pw.hold_handshake[0] = False
         pw.release_handshakes()
         cand = [h for h in pw.open_held() if kinds.get(pw.uid_of_held(h)) != 'late']
